@@ -524,3 +524,21 @@ def check_C07(tier):
                                "Repro.tla; each replayed in a fresh process for 4 problem kinds (deterministic/noisy x x0 given/omitted) and "
                                "compared bit for bit with the two-step reference"})
     return v
+
+
+def check_C19(tier):
+    from . import comp_iterhist
+    v = check_C19run(tier)
+    st, cases = comp_iterhist.run(v, tier)
+    v.coverage["states"] += st
+    v.coverage["transitions"] += cases
+    return v
+
+
+def check_C18(tier):
+    from . import comp_hedge
+    v = check_C18run(tier)
+    st, cases = comp_hedge.run(v, tier)
+    v.coverage["states"] += st
+    v.coverage["transitions"] += cases
+    return v
